@@ -9,7 +9,8 @@ import shutil
 
 from vlib import core
 
-THEOREMS = ["C08_union", "C08_order", "C08_conflict", "C08_spec", "C08_gki_events", "C08_fields"]
+THEOREMS = ["C08_union", "C08_order", "C08_conflict", "C08_spec", "C08_gki_events", "C08_fields", "C08_chain_count_key",
+            "C08_chain_rename_then_plain"]
 PROPS = "theories/Props/C08.v"
 REGISTRY = {
     "level": "proof",
@@ -135,7 +136,46 @@ def gen_project(rng, conflict):
             else:
                 vals[l] = gen_value(rng, kind, j == 0, targets, fk_in_plural)
         keys["k%d" % i] = vals
+    # reference chains of length 2-3 over a plural (pl0) or a range table (g1): the count is renamed / selected / left
+    # alone at the first hop, then reached again with no count, unrelated arguments, a literal count or a second rename
+    for c in range(rng.choice([0, 1, 2, 3])):
+        target = rng.choice(["pl0", "pl0", "g1"])
+        h1, h2, h3 = "h1_%d" % c, "h2_%d" % c, "h3_%d" % c
+        keys[h1] = {l: gen_hop1(rng, target) for l in locales}
+        keys[h2] = {l: gen_hop(rng, h1, j == 0, True) for j, l in enumerate(locales)}
+        if rng.random() < 0.5:
+            keys[h3] = {l: gen_hop(rng, h2, j == 0, False) for j, l in enumerate(locales)}
     return locales, keys
+
+
+def gen_hop1(rng, target):
+    r = rng.random()
+    if r < 0.55:
+        return ("ref", target, {"count": ("var", rng.choice(["n", "m"]))}, None)
+    if r < 0.7:
+        return ("ref", target, {}, None)
+    if r < 0.85:
+        return ("ref", target, {"count": ("lit", rng.choice([0, 1, 2, 5]))}, None)
+    return ("str", gen_pieces(rng))
+
+
+def gen_hop(rng, target, is_default, allow_count):
+    r = rng.random()
+    if r < 0.1:
+        return ("str", gen_pieces(rng))
+    if r < 0.15 and not is_default:
+        return ("null",)
+    a = rng.random()
+    if a < 0.4:
+        args = {}
+    elif a < 0.65 or not allow_count:
+        args = {"unrelated": ("pieces", gen_arg_pieces(rng, rng.choice(["text", "comp_var", "var"])))}
+    elif a < 0.82:
+        args = {"count": ("lit", rng.choice([0, 1, 2, 5]))}
+    else:
+        args = {"count": ("var", rng.choice(["m", "q"]))}
+    wrap = rng.choice([None, None, None, "comp", "comp", "text"])
+    return ("ref", target, args, wrap)
 
 
 ARG_COMPS = ["z1", "z2"]       # names that occur nowhere else: an argument is their only source
@@ -183,6 +223,10 @@ def value_json(name, v, out):
         out[name] = "$t(%s)" % v[1]
     elif k == "fkcount":
         out[name] = "$t(pl0, {\"count\": \"{{ %s }}\"})" % v[1]
+    elif k == "ref":
+        args = {nm: ("{{ %s }}" % a[1] if a[0] == "var" else a[1] if a[0] == "lit" else pieces_json(a[1])) for nm, a in v[2].items()}
+        t = "$t(%s%s)" % (v[1], ", " + json.dumps(args) if args else "")
+        out[name] = {"comp": "<b>%s</b>" % t, "text": "see %s" % t, None: t}[v[3]]
     elif k == "fkargs":
         out[name] = "$t(%s, %s)" % (v[1], json.dumps({nm: (pieces_json(a[1]) if a[0] == "pieces" else a[1]) for nm, a in v[2].items()}))
     elif k == "plural":
@@ -320,6 +364,73 @@ def pv_value(v, locale_vals, intern):
     raise ValueError(k)
 
 
+ICU = {}        # (locale, count) -> cardinal CLDR category, filled by run() from `h_plurals rt` (oracle)
+
+
+def target_locale(key, loc, keys, dflt):
+    """a reference to a key that is an explicit default (`null`) in this locale takes the default locale's value,
+    resolved in the default locale (resolve_foreign_key_inner; no `inherits` in the generated projects)"""
+    return dflt if keys[key][loc][0] == "null" else loc
+
+
+def chain_node(key, loc, keys, dflt):
+    """the plural / range node a literal count would hit in the resolved value of `key`: ('plural', non-other forms) |
+    ('ranges', number of branches) | None"""
+    v = keys[key][loc]
+    if v[0] == "plural":
+        return ("plural", [f for f in ["zero", "one", "two", "few", "many"] if f in v[2]])
+    if v[0] == "ranges":
+        return ("ranges", len(v[2]))
+    if v[0] == "ref":
+        if "count" in v[2] and v[2]["count"][0] == "lit":
+            return None
+        return chain_node(v[1], target_locale(v[1], loc, keys, dflt), keys, dflt)
+    return None
+
+
+def src_term(key, loc, keys, intern, dflt):
+    """Coq `src` description of the value of `key` in `loc`: references carry the description of their target"""
+    v = keys[key][loc]
+    if v[0] != "ref":
+        return "(SVal %s)" % pv_value(v, {k: keys[k][loc] for k in keys}, intern)
+    args = []
+    for nm, a in v[2].items():
+        if a[0] == "var":
+            t = "(SaVal (SVal (PVar %d 0)))" % intern("var_" + a[1])
+        elif a[0] == "lit":
+            tl = target_locale(v[1], loc, keys, dflt)
+            node = chain_node(v[1], tl, keys, dflt)
+            choice = 0
+            if node and node[0] == "plural":
+                cat = ICU[(tl, a[1])]
+                choice = node[1].index(cat) if cat in node[1] else len(node[1])
+            elif node:
+                choice = min(a[1], node[1] - 1)
+            t = "(SaCountLit %d LUnsigned)" % choice
+        else:
+            t = "(SaVal (SVal %s))" % pv_pieces(a[1], intern, None, {k: keys[k][loc] for k in keys})
+        args.append("(%d, %s)" % (intern("var_" + nm), t))
+    inner = "(SRef %s %s)" % (src_term(v[1], target_locale(v[1], loc, keys, dflt), keys, intern, dflt), core.coq_list(args))
+    if v[3] == "comp":
+        return "(SComp %d %s)" % (intern("comp_b"), inner)
+    if v[3] == "text":
+        return "(SBloc [SVal (PLit LString); %s])" % inner
+    return inner
+
+
+def chain_of(key, loc, keys, dflt=None):
+    """the reference chain of a key in a locale, for reports"""
+    out = []
+    while True:
+        v = keys[key][loc]
+        out.append({"key": key, "locale": loc, "value": list(v)})
+        if v[0] != "ref":
+            return out
+        key = v[1]
+        if dflt and keys[key][loc][0] == "null":
+            loc = dflt
+
+
 def coq_impl(val, intern):
     if "lit" in val:
         return "(KOk (ILit %s))" % LIT[val["lit"]]
@@ -451,6 +562,17 @@ def run(ctx):
     ok, problems = core.coq_audit(ctx, PROPS, THEOREMS)
     exe = os.path.join(bindir, "h_plurals")
     rng = ctx.rng
+    rc, out, err = core.sh([exe, "rt"], timeout=600)
+    if rc != 0:
+        raise core.Infra("h_plurals rt failed: " + err[-300:])
+    ns_line = next(l for l in out.split("\n") if l.startswith("N "))
+    ints = [int(x) for x in ns_line[2:].split(",")]
+    for l in out.split("\n"):
+        if l.startswith("T ") and l.split(" ")[2] == "c":
+            _, loc, _, body = l.split(" ", 3)
+            tbl = body.split("|")[0].split(",")
+            for n_, c_ in zip(ints[:31], tbl[:31]):
+                ICU[(loc, n_)] = c_
     n = 60 if ctx.quick else 1500
     projects = []
     # corpus first: the documented conflicts
@@ -487,6 +609,7 @@ def run(ctx):
     if rc != 0 or len(lines) != len(dirs):
         raise core.Infra("h_plurals parse: %d lines for %d projects; %s" % (len(lines), len(dirs), err[-400:]))
     items, meta, shape, panics, unattributed = [], [], [], [], []
+    citems, cmeta = [], []
     intern = Interner()
     outcomes = {"ok": 0, "RangeAndPluralsMix": 0, "RangeTypeMissmatch": 0, "other_err": 0, "PANIC": 0}
     probe_candidate = None
@@ -522,7 +645,20 @@ def run(ctx):
                 continue
         for name, vals in keys.items():
             by_loc = {l: {k: keys[k][l] for k in keys} for l in locales}
-            pvs = [pv_value(vals[l], by_loc[l], intern) for l in locales]
+            is_chain = any(vals[l][0] == "ref" for l in locales)
+            cid = intern("var_count")
+            pvs = [("(resolve %d %s)" % (cid, src_term(name, l, keys, intern, locales[0]))) if vals[l][0] == "ref"
+                   else pv_value(vals[l], by_loc[l], intern) for l in locales]
+            if is_chain and "ok" in pipe:
+                # the count keys of the final value of every locale (h_plurals' final-value dump)
+                for l, pvt in zip(locales, pvs):
+                    fin = next((x for x in pipe["ok"]["final"] if x["name"] == l), None)
+                    cnt = dict((k, c) for k, c in fin["counts"]).get(name, []) if fin else []
+                    citems.append("(%s, %s)" % (pvt, core.coq_list([
+                        "(%d, %s)" % (intern(ck), "RPlural" if kind == "Plural" else "(RRange %d)" % RANGE_TYPES.index(kind))
+                        for ck, kind in cnt])))
+                    cmeta.append({"project": pi, "key": name, "locale": l, "locales": locales,
+                                  "chain": chain_of(name, l, keys, locales[0]), "final_value_count_keys": cnt})
             if "ok" in pipe:
                 impl = "(Some %s)" % coq_impl(impl_by_key[name], intern)
             elif name == err_key:
@@ -533,12 +669,21 @@ def run(ctx):
             meta.append({"project": pi, "key": name, "locales": locales, "values": {l: vals[l] for l in locales},
                          "impl": impl_by_key.get(name) if "ok" in pipe else (pipe["err"] if name == err_key else None)})
     codes = core.coq_eval(ctx, "c08_%d" % os.getpid(), PRE, items, "check")
+    ccodes = core.coq_eval(ctx, "c08c_%d" % os.getpid(), PRE, citems, "check_counts") if citems else []
+    bad_counts = [m for m, c in zip(cmeta, ccodes) if c != 0]
     bad_spec = [m for m, c in zip(meta, codes) if c == 3]
     disagree = [m for m, c in zip(meta, codes) if c == 2]
     skipped = sum(1 for c in codes if c == 1)
     probes = None
     if not ctx.quick and probe_candidate is not None:
         probes = run_probes(ctx, *probe_candidate)
+    if bad_counts:
+        bad_counts.sort(key=lambda m: len(json.dumps(m["chain"])))
+        core.violation(ctx, "chain_count_key", {
+            "failing_input": bad_counts[0], "more": bad_counts[1:3], "count": len(bad_counts),
+            "explanation": "the Ranges / Plurals nodes of the final value of this key do not switch on the count variable the "
+                           "reference chain leaves them with (kept without a `count` argument, renamed by a variable, gone after a "
+                           "literal): check_counts (Coq) on h_plurals' final-value dump"})
     if bad_spec:
         bad_spec.sort(key=lambda m: len(json.dumps(m["values"])))
         bad_spec[0]["explanation"] = ("spec_C08 (Coq, Parser/Keys.v) is false on the InterpolOrLit the real parser computed: the "
@@ -583,6 +728,7 @@ def run(ctx):
         "traces_validated_against_impl": sum(1 for m in meta if m["impl"] is not None),
         "unobserved_keys_of_failed_projects": sum(1 for m in meta if m["impl"] is None),
         "disagreements": len(disagree), "spec_failures_on_impl": len(bad_spec), "skipped_outside_domain": skipped,
+        "chain_final_values_checked": len(citems), "chain_count_key_failures": len(bad_counts),
         "shape_problems": shape[:3], "compile_probes": probes if probes is not None else "thorough tier only",
         "input_distribution": hist, "audit_problems": problems,
     }, assumptions=[
@@ -639,7 +785,7 @@ def replay(ctx, path):
     exe = os.path.join(core.cargo_build("h_plurals"), "h_plurals")
     locales = fi["locales"]
     vals = {l: _value(fi["values"][l]) for l in locales}
-    if any(v[0] in ("fk", "fkcount", "fkargs") for v in vals.values()):
+    if any(v[0] in ("fk", "fkcount", "fkargs", "ref") for v in vals.values()):
         print("the stored value refers to other keys of its project (foreign key); re-run ./check C08 --seed %d instead" % ctx.seed)
         return 0
     keys = {"k0": vals}
